@@ -85,6 +85,14 @@ def _impl():
     return checker
 
 
+def _em_bit(checker, g, w):
+    """'1' / '0', or 'E' when the matcher raises instead of answering"""
+    try:
+        return '1' if checker._ellipsis_match(g, w) else '0'
+    except Exception:      # noqa
+        return 'E'
+
+
 def _chunk_worker(args):
     wants, maxgot = args
     checker = _impl()
@@ -94,13 +102,13 @@ def _chunk_worker(args):
     out = []
     n_true = 0
     for w, a in zip(wants, ans):
-        bits = ''.join('1' if checker._ellipsis_match(g, w) else '0' for g in gots)
+        bits = ''.join(_em_bit(checker, g, w) for g in gots)
         n_true += bits.count('1')
         if bits != a:
             # first differing got
             for k, (x, y) in enumerate(zip(bits, a)):
                 if x != y:
-                    out.append((gots[k], w, x == '1', y == '1'))
+                    out.append((gots[k], w, 'raised' if x == 'E' else x == '1', y == '1'))
                     break
             else:
                 out.append((None, w, None, None))
@@ -117,7 +125,10 @@ def report_pair(ctx, got, want, impl_v, model_v, where):
         'replay': "checker._ellipsis_match(got, want) vs spec_ellmatch(got, want)",
     }
     ctx.corr_failures.append(payload)
-    if impl_v != spec_v:
+    if impl_v == 'raised':
+        payload['what'] = '_ellipsis_match(got, want) raises instead of answering (the wildcard relation says %s)' % spec_v
+        ctx.violation('ellipsis-relation', payload, found_input=True)
+    elif impl_v != spec_v:
         ctx.violation('ellipsis-relation', payload, found_input=True)
     else:
         # the implementation agrees with the independent spec but not with the model: our model is off
@@ -145,7 +156,7 @@ def run(ctx):
     if corpus:
         ans = common.model_batch([('ellipsis_match', g, w) for g, w in corpus])
         for (g, w), m in zip(corpus, ans):
-            i = bool(checker._ellipsis_match(g, w))
+            i = {'1': True, '0': False, 'E': 'raised'}[_em_bit(checker, g, w)]
             ctx.evaluations += 1
             if i != m or i != spec_ellmatch(g, w):
                 report_pair(ctx, g, w, i, m, 'corpus')
@@ -206,8 +217,8 @@ def run(ctx):
                           'bit vector length mismatch'}, found_input=False)
         else:
             report_pair(ctx, got, want, iv, mv, 'exhaustive')
-    ctx.sample({'got': 'ab', 'want': 'a...b...b', 'impl': bool(checker._ellipsis_match('ab', 'a...b...b'))})
-    ctx.sample({'got': 'a b.a', 'want': 'a ... .a', 'impl': bool(checker._ellipsis_match('a b.a', 'a ... .a'))})
+    ctx.sample({'got': 'ab', 'want': 'a...b...b', 'impl': _em_bit(checker, 'ab', 'a...b...b')})
+    ctx.sample({'got': 'a b.a', 'want': 'a ... .a', 'impl': _em_bit(checker, 'a b.a', 'a ... .a')})
 
     # ---- random longer derived pairs ----------------------------------------
     rng = ctx.rng('random')
@@ -469,7 +480,7 @@ def _e2e_history(docs, shared):
 def _rand_worker(pairs):
     checker = _impl()
     ans = common.model_batch([('ellipsis_match', g, w) for g, w in pairs])
-    return [(bool(checker._ellipsis_match(g, w)), m) for (g, w), m in zip(pairs, ans)]
+    return [({'1': True, '0': False, 'E': 'raised'}[_em_bit(checker, g, w)], m) for (g, w), m in zip(pairs, ans)]
 
 
 def replay(path):
@@ -516,7 +527,7 @@ def replay(path):
         iv = bool(checker.check_output(got, want, off))
         sv = bool(checker.check_output(got.replace('.', 'c'), want.replace('.', 'c'), off)) if '...' in want else bool(checker.check_output(got, want, on))
     else:
-        iv = bool(checker._ellipsis_match(got, want))
+        iv = {'1': True, '0': False, 'E': 'raised'}[_em_bit(checker, got, want)]
         sv = spec_ellmatch(got, want)
     print('got=%r want=%r implementation=%r expected=%r' % (got, want, iv, sv))
     if iv != sv:
